@@ -2,8 +2,18 @@
 (* Every option sequence of up to MaxOpts options x loader kinds x documents over the leaf paths. *)
 EXTENDS Config
 CONSTANT MaxOpts
-KeySets == {{"a"}, {"a", "b"}, {"b", "c.x"}, {"c.x", "c.y"}, {}}
+KeySets == {{"a"}, {"a", "c.x"}, {}}
 Vals == {1, 2}
-Opts == [kind : {"add", "set"}, lk : {"raw", "args"}, keys : KeySets, val : Vals] \cup [kind : {"file"}, lk : {"file"}, keys : KeySets, val : Vals]
-MCInit == \E n \in 0..MaxOpts : \E o \in [1..n -> Opts] : InitWith([opts |-> o])
+Opts == [kind : {"add"}, lk : {"raw", "args", "file"}, keys : KeySets, val : Vals, join : BOOLEAN]
+        \cup [kind : {"set"}, lk : {"raw", "args", "file"}, keys : KeySets, val : Vals, join : {FALSE}]
+        \cup [kind : {"file"}, lk : {"file"}, keys : KeySets, val : Vals, join : {FALSE}]
+InitOpt == [kind |-> "init", lk |-> "none", keys |-> {}, val |-> 0, join |-> FALSE]
+\* a joined loader needs a variadic call before it
+\* (marker values are interchangeable: the first option carries 1)
+WellFormed(o) == /\ \A i \in 1..Len(o) : o[i].join => (i > 1 /\ o[i - 1].kind \in {"add", "set"})
+                 /\ Len(o) > 0 => o[1].val = 1
+\* ... and the same sequences with one Initialize in the middle (re-initialisation of a shared Configure)
+WithInit(o, at) == [i \in 1..(Len(o) + 1) |-> IF i < at THEN o[i] ELSE IF i = at THEN InitOpt ELSE o[i - 1]]
+MCInit == \/ \E n \in 0..MaxOpts : \E o \in [1..n -> Opts] : WellFormed(o) /\ InitWith([opts |-> o])
+          \/ \E n \in 2..MaxOpts : \E o \in [1..n -> Opts] : \E at \in 2..n : WellFormed(WithInit(o, at)) /\ InitWith([opts |-> WithInit(o, at)])
 =============================================================================
